@@ -19,7 +19,8 @@ Definition exact_comps (a b : Dcomps) : bool := all2 (all2 deq) a b.
     filter; prediction at the query of the same step inside the real chain *)
 Record step_obs := {
   so_gridder : bool;
-  so_pq : Dcomps; so_pc : Dcomps; so_fdata : Dcomps; so_rq : Dcomps
+  so_pq : Dcomps; so_pc : Dcomps; so_fdata : Dcomps; so_rq : Dcomps;
+  so_same_cw : bool   (* a gridder's filter returned the coordinates and weights it was given, residuals in the data's shape *)
 }.
 
 (** coordinates are stage identifiers: the query is -1 *)
@@ -56,7 +57,8 @@ Definition c06_chain (d : Dcomps) (steps : list step_obs) (obs_q : option Dcomps
   let oq := option_map Qc obs_q in
   let threaded := forallb (fun s => negb (so_gridder s) || exact_comps (so_pq s) (so_rq s)) steps in
   let agree :=
-    opt_close sc (chain_predict tsteps a0 (-1)%Z) oq && filters_agree sc steps a0 && threaded in
+    opt_close sc (chain_predict tsteps a0 (-1)%Z) oq && filters_agree sc steps a0 && threaded &&
+    forallb (fun s => negb (so_gridder s) || so_same_cw s) steps in
   let all_gridders := forallb so_gridder steps && negb (match steps with [] => true | _ => false end) in
   let telescopes :=
     if all_gridders then
@@ -65,7 +67,10 @@ Definition c06_chain (d : Dcomps) (steps : list step_obs) (obs_q : option Dcomps
       | [] => true
       end
     else true in
-  let holds := opt_close sc (sum_rq steps) oq && threaded && telescopes in
+  (* the filter contract of every gridder step (data minus its own prediction at the
+     coordinates it was given, same coordinates and weights) is part of the statement *)
+  let contract := filters_agree sc steps a0 && forallb (fun s => negb (so_gridder s) || so_same_cw s) steps in
+  let holds := opt_close sc (sum_rq steps) oq && threaded && telescopes && contract in
   mk_verdict agree holds.
 
 (** BaseGridder.filter: (coordinates, data - prediction reshaped to the data's
